@@ -535,6 +535,9 @@ fn frames_part(tier: Tier, st: &mut Stats) -> Vec<(&'static str, String, Vec<u8>
     family!(Texty, "texty", texty_values(&small_sizes));
     family!(Nested, "nested", nested_values(&small_sizes));
     family!(FailWith, "fail-with", vec![FailWith { code: 1, message: "boom".into() }]);
+    family!(Knob, "tiny-3-bytes", vec![Knob { channel: 7, level: 9, attempt: 3 }, Knob { channel: 0, level: 0, attempt: 0 }]);
+    family!(Half, "tiny-u16", vec![Half { v: 1801 }]);
+    family!(Five, "tiny-6-bytes", vec![Five { bytes: [1, 2, 3, 4, 5], mode: Mode::High }]);
     // Status itself is what the client decodes on the error path
     {
         let v = Status::internal("some error");
